@@ -130,6 +130,7 @@ def elemText (K : Closures) (pc : Cfg) : Val → Text
     match l.text with
     | some t => padValue (!pc.nspad) (pc.encapv t)
     | none => unknownText
+  | .zstk _ | .zcnd _ => []      -- a zero-valued Stack / Condition (any form) contributes nothing (repair F38)
   | _ => unknownText
 
 /-- the non-empty element renderings, in order -/
